@@ -61,7 +61,7 @@ pub trait OperandHandler {
         expand_arrays: ExpandArrays,
     ) {
         match expr {
-            Expr::Lit(_) => Self::replace_literals(expr, arguments),
+            Expr::Lit(_) => arguments.push(ident_provider.get_expr_or_spread(expr, ident_kind)),
             Expr::Ident(_) => {
                 if ident_mode == IdentMode::Replace {
                     expr.map_with_mut(|op| {
